@@ -728,14 +728,33 @@ def blocks_rule(ctx):
             ok = False
     ctx.ob('BLOCKS', 'has_more/ends-only-on-zero-count', ok, short_loc(hm.span), 'Ok(false) only in the None arm of read_block_len: %s' % ok)
     # the stored remaining count is l - 1 where l is the header's count
+    # (one merged assignment `field = match countdown { Some(n) => n, None => header - 1 }`, or one assignment per case)
     st = False
+    seen_hdr = seen_cd = False
+    other = False
     for bb in hm.live_blocks():
+        if hm.is_cleanup(bb):
+            continue
         for s in hm.stmts(bb):
             if 'assign' in s and cd_field and any(isinstance(e, dict) and e.get('f') == cd_field for e in s['assign'].get('p', [])):
-                o = origin(hm, s['rv']['op']) if s['rv']['k'] == 'use' else None
-                if o is not None:
-                    from_hdr = any('read_block_len' in cname(c) for c in o.calls)
-                    from_cd = any(call_matches(c, ['::checked_sub']) for c in o.calls)
-                    ar = {x for x in o.flags if x.startswith('arith:')}
-                    st = from_hdr and from_cd and ar <= {'arith:SubWithOverflow', 'arith:Sub'} and 1 in o.consts()
+                o = origin(hm, s['rv']['op']) if s['rv']['k'] == 'use' else (origin(hm, s['assign']) if s['rv']['k'] == 'bin' else None)
+                if s['rv']['k'] == 'bin':
+                    o = Origin()
+                    for side in ('l', 'r'):
+                        so_ = origin(hm, s['rv'][side])
+                        o.atoms |= so_.atoms; o.flags |= so_.flags; o.fields |= so_.fields; o.calls += so_.calls
+                    o.flags.add('arith:' + s['rv']['op'])
+                if o is None:
+                    other = True
+                    continue
+                from_hdr = any('read_block_len' in cname(c) for c in o.calls)
+                from_cd = any(call_matches(c, ['::checked_sub']) for c in o.calls)
+                ar = {x for x in o.flags if x.startswith('arith:')}
+                if from_hdr and ar <= {'arith:SubWithOverflow', 'arith:Sub'} and 1 in o.consts() and ar:
+                    seen_hdr = True
+                if from_cd and (not ar or from_hdr):
+                    seen_cd = True
+                if not from_hdr and not from_cd:
+                    other = True
+    st = seen_hdr and seen_cd and not other
     ctx.ob('BLOCKS', 'has_more/stores-count-minus-one', st, short_loc(hm.span), 'self.%s = countdown | header count - 1: %s' % (cd_field, st))
